@@ -605,6 +605,10 @@ def _add_ephemeral_service(config, onion, progress, version, auth=None, await_al
                 cmd += ' ClientAuth={}:{}'.format(client_name, keyblob)
                 onion._add_client(client_name, keyblob)
 
+    if '\r' in cmd or '\n' in cmd:
+        raise ValueError(
+            "No newline or return characters allowed in ADD_ONION arguments"
+        )
     raw_res = yield config.tor_protocol.queue_command(cmd)
     res = find_keywords(raw_res.split('\n'))
     try:
